@@ -9,7 +9,7 @@
 //!
 //! line:  CP <id> <family> <ntowers> <max_retry_s> <auto_retry_s> <max_interval_s> <nsteps> <step>* END
 //! step:  S <kind> <a> <b> RES <code> <ms> OBS <observation>
-//!   kind 1 REG t cls | 2 MODE t cls (cls >= 100: register class cls-100) | 3 UP t 0/1 | 4 REV l 0 | 5 SETTLE 0 0 | 6 SLEEP ms 0 | 7 RETRY t 0
+//!   kind 1 REG t cls (register classes 0 good 1 badsig 2 same-expiry 3 garbage 4 api-error 5 no-more-slots 6 more-slots-same-expiry 20 down) | 2 MODE t cls (cls >= 100: register class cls-100) | 3 UP t 0/1 | 4 REV l 0 | 5 SETTLE 0 0 | 6 SLEEP ms 0 | 7 RETRY t 0
 //!        | 8 ABANDON t 0 | 9 KILL 0 0 | 10 START 0 0 | 11 REVNOWAIT l 0 | 12 WAKE 0 0
 //!   RES code: 0 ok / accepted, 1 error reply, 2 no answer within the timeout, 3 not applicable; ms = duration of the step
 //! observation (ints):
@@ -19,8 +19,10 @@
 //!   RAW 7 x { n rows }    (towers t addr slots | appointments l 1 delay | pending l t | invalid l t |
 //!                          registration_receipts t slots start expiry sigcls | appointment_receipts l t sb 1 sigcls |
 //!                          misbehaving_proofs t l rec)
-//!   LOG n { t ep l cls ms }      requests the towers saw since the previous observation, in order
-//!        ep 0 register 1 add_appointment 2 other; cls = the reply class the tower gave
+//!   LOG n { t ep l cls ms v1 v2 v3 }   requests the towers saw since the previous observation, in order
+//!        ep 0 register 1 add_appointment 2 other; cls = the reply class the tower gave;
+//!        v1 v2 v3 = (available_slots, subscription_start, subscription_expiry) of a register reply that carries a
+//!        receipt, (available_slots, 0, 0) of an add_appointment reply that carries one, 0 0 0 otherwise
 use std::collections::HashMap;
 use std::io::Write;
 use std::path::{Path, PathBuf};
@@ -121,6 +123,8 @@ const R_BADSIG: u64 = 1;
 const R_NOTEXT: u64 = 2; // a valid receipt that does not extend the subscription
 const R_GARBAGE: u64 = 3;
 const R_APIERR: u64 = 4;
+const R_NOTEXT_SLOTS: u64 = 5; // a valid receipt with a later expiry but no more slots than the client knows
+const R_NOTEXT_EXPIRY: u64 = 6; // a valid receipt with more slots but the expiry the client already knows
 const C_DOWN: u64 = 20; // not listening (connection refused) — never logged by the tower, used in scripts only
 
 struct LogEntry {
@@ -129,6 +133,7 @@ struct LogEntry {
     l: i64,
     cls: u64,
     ms: u64,
+    v: (u32, u32, u32),
 }
 
 struct TowerState {
@@ -240,13 +245,20 @@ async fn handle_conn(mut s: tokio::net::TcpStream, st: Arc<Mutex<TowerState>>, i
         if path == "/register" {
             let cls = g.reg;
             let user_id = serde_json::from_slice::<msgs::RegisterRequest>(body).ok().and_then(|r| UserId::from_slice(&r.user_id).ok());
-            g.log.push(LogEntry { t: id, ep: 0, l: -1, cls, ms });
+            let mut vals = (0, 0, 0);
             reply = Some(match (cls, user_id) {
-                (R_GOOD, Some(u)) | (R_BADSIG, Some(u)) | (R_NOTEXT, Some(u)) => {
+                (R_GOOD, Some(u)) | (R_BADSIG, Some(u)) | (R_NOTEXT, Some(u)) | (R_NOTEXT_SLOTS, Some(u)) | (R_NOTEXT_EXPIRY, Some(u)) => {
                     if cls == R_GOOD {
                         g.gen += 1;
                     }
-                    let (slots, start, expiry) = sub_values(g.gen);
+                    let (mut slots, start, mut expiry) = sub_values(g.gen);
+                    if cls == R_NOTEXT_SLOTS {
+                        expiry += 50;
+                    }
+                    if cls == R_NOTEXT_EXPIRY {
+                        slots += 5;
+                    }
+                    vals = (slots, start, expiry);
                     let mut r = RegistrationReceipt::new(u, slots, start, expiry);
                     r.sign(if cls == R_BADSIG { &other_sk } else { &tower_sk });
                     serde_json::to_string(&msgs::RegisterResponse {
@@ -261,12 +273,14 @@ async fn handle_conn(mut s: tokio::net::TcpStream, st: Arc<Mutex<TowerState>>, i
                 (R_APIERR, _) => json!({"error": "no slots", "error_code": 65}).to_string(),
                 _ => "<html>this is not json</html>".to_string(),
             });
+            g.log.push(LogEntry { t: id, ep: 0, l: -1, cls, ms, v: vals });
         } else if path == "/add_appointment" {
             let cls = g.add;
             let req = serde_json::from_slice::<msgs::AddAppointmentRequest>(body).ok();
             let loc = req.as_ref().and_then(|r| r.appointment.as_ref()).map(|a| loc_of_bytes(&a.locator)).unwrap_or(-2);
-            g.log.push(LogEntry { t: id, ep: 1, l: loc, cls, ms });
             let (slots, _start, expiry) = sub_values(g.gen);
+            let has_receipt = matches!(cls, A_ACCEPT | A_WRONGKEY | A_BADSIG);
+            g.log.push(LogEntry { t: id, ep: 1, l: loc, cls, ms, v: (if has_receipt { slots } else { 0 }, 0, 0) });
             reply = match cls {
                 A_ACCEPT | A_WRONGKEY | A_BADSIG => {
                     let req = req.unwrap();
@@ -296,7 +310,7 @@ async fn handle_conn(mut s: tokio::net::TcpStream, st: Arc<Mutex<TowerState>>, i
                 _ => None,
             };
         } else {
-            g.log.push(LogEntry { t: id, ep: 2, l: -1, cls: 0, ms });
+            g.log.push(LogEntry { t: id, ep: 2, l: -1, cls: 0, ms, v: (0, 0, 0) });
             reply = Some("{}".to_string());
         }
     }
@@ -723,7 +737,7 @@ impl Runner {
         entries.sort_by_key(|e| e.ms);
         l.tok("LOG").tok(entries.len());
         for e in entries {
-            l.tok(e.t).tok(e.ep).tok(e.l).tok(e.cls).tok(e.ms);
+            l.tok(e.t).tok(e.ep).tok(e.l).tok(e.cls).tok(e.ms).tok(e.v.0).tok(e.v.1).tok(e.v.2);
         }
     }
 
@@ -739,6 +753,8 @@ impl Runner {
             }
         };
         let _ = conn.busy_timeout(Duration::from_millis(2000));
+        // one read transaction: the seven tables are one consistent snapshot
+        let _ = conn.execute_batch("BEGIN");
         let tables = ["towers", "appointments", "pending_appointments", "invalid_appointments", "registration_receipts", "appointment_receipts", "misbehaving_proofs"];
         for name in tables {
             let mut out: Vec<Vec<i64>> = Vec::new();
@@ -865,7 +881,7 @@ fn families() -> Vec<Scenario> {
     }
     // 3: outage, the retrier gives up, manual retry gate, recovery by manual retry
     v.push(fam(3, 2, o, vec![(K_REG, 0, R_GOOD), (K_REG, 1, R_GOOD), (K_UP, 0, 0), (K_REV, 0, 0), (K_RETRY, 0, 0), (K_REV, 1, 0), (K_SETTLE, 0, 0),
-                             (K_RETRY, 1, 0), (K_REV, 2, 0), (K_UP, 0, 1), (K_RETRY, 0, 0), (K_SETTLE, 0, 0), (K_RETRY, 0, 0)]));
+                             (K_RETRY, 1, 0), (K_REV, 2, 0), (K_UP, 0, 1), (K_RETRY, 0, 0), (K_SETTLE, 0, 0), (K_RETRY, 0, 0), (K_SETTLE, 0, 0)]));
     // 4: outage and recovery while the retrier is running (no user action)
     v.push(fam(4, 1, (6, 30, 1), vec![(K_REG, 0, R_GOOD), (K_UP, 0, 0), (K_REV, 0, 0), (K_REV, 1, 0), (K_SLEEP, 1500, 0), (K_REV, 2, 0), (K_UP, 0, 1), (K_SETTLE, 0, 0)]));
     // 5: outage, give up, automatic retry after the delay once the tower is back
@@ -875,11 +891,13 @@ fn families() -> Vec<Scenario> {
     // 7: subscription error, renewal by the retrier, delivery
     v.push(fam(7, 1, o, vec![(K_REG, 0, R_GOOD), (K_MODE, 0, A_SUBERR), (K_REV, 0, 0), (K_MODE, 0, A_ACCEPT), (K_SETTLE, 0, 0), (K_REV, 1, 0), (K_SETTLE, 0, 0)]));
     // 8: subscription error and the renewal is refused in every way
-    for cls in [R_BADSIG, R_NOTEXT, R_GARBAGE, R_APIERR] {
+    for cls in [R_BADSIG, R_NOTEXT, R_NOTEXT_SLOTS, R_NOTEXT_EXPIRY, R_GARBAGE, R_APIERR] {
         v.push(fam(8, 1, o, vec![(K_REG, 0, R_GOOD), (K_MODE, 0, A_SUBERR), (K_REV, 0, 0), (K_SETTLE, 0, 0), (K_MODE, 0, cls + 100), (K_RETRY, 0, 0),
                                  (K_SETTLE, 0, 0), (K_RETRY, 0, 0), (K_SETTLE, 0, 0)]));
     }
     // 9: registration gate: every reply class for a first registration and for a renewal
+    v.push(fam(9, 1, o, vec![(K_REG, 0, R_NOTEXT_EXPIRY), (K_REG, 0, R_NOTEXT_EXPIRY), (K_REV, 0, 0), (K_REG, 0, R_GOOD), (K_REG, 0, R_NOTEXT_EXPIRY), (K_REV, 1, 0), (K_SETTLE, 0, 0)]));
+    v.push(fam(9, 1, o, vec![(K_REG, 0, R_NOTEXT_SLOTS), (K_REG, 0, R_NOTEXT_SLOTS), (K_REV, 0, 0), (K_REG, 0, R_NOTEXT), (K_REG, 0, R_GOOD), (K_REG, 0, R_NOTEXT_SLOTS), (K_SETTLE, 0, 0)]));
     for cls in [R_BADSIG, R_GARBAGE, R_APIERR, C_DOWN] {
         v.push(fam(9, 1, o, vec![(K_REG, 0, cls), (K_REV, 0, 0), (K_REG, 0, R_GOOD), (K_REG, 0, cls), (K_REG, 0, R_NOTEXT), (K_REV, 1, 0), (K_REG, 0, R_GOOD), (K_SETTLE, 0, 0)]));
     }
@@ -896,9 +914,45 @@ fn families() -> Vec<Scenario> {
     }
     // 12: abandon: while pending / being retried; re-registration
     v.push(fam(12, 2, o, vec![(K_REG, 0, R_GOOD), (K_REG, 1, R_GOOD), (K_UP, 0, 0), (K_REV, 0, 0), (K_ABANDON, 0, 0), (K_REV, 1, 0), (K_SETTLE, 0, 0), (K_UP, 0, 1),
-                              (K_REG, 0, R_GOOD), (K_REV, 2, 0), (K_SETTLE, 0, 0), (K_ABANDON, 1, 0), (K_ABANDON, 1, 0)]));
+                              (K_REG, 0, R_GOOD), (K_REV, 2, 0), (K_SETTLE, 0, 0), (K_ABANDON, 1, 0), (K_ABANDON, 1, 0), (K_SETTLE, 0, 0)]));
     // 13: revocations while the retrier is idle (unreachable): stored, not sent; delivered after the manual retry
     v.push(fam(13, 1, o, vec![(K_REG, 0, R_GOOD), (K_UP, 0, 0), (K_REV, 0, 0), (K_SETTLE, 0, 0), (K_REV, 1, 0), (K_REV, 1, 0), (K_UP, 0, 1), (K_REV, 2, 0), (K_RETRY, 0, 0), (K_SETTLE, 0, 0)]));
+    // 14: a tower proven misbehaving gets nothing more (notification path and retry path); registering with it again while it is down
+    v.push(fam(14, 2, o, vec![(K_REG, 0, R_GOOD), (K_REG, 1, R_GOOD), (K_MODE, 0, A_WRONGKEY), (K_REV, 0, 0), (K_SETTLE, 0, 0), (K_MODE, 0, A_ACCEPT), (K_REV, 1, 0),
+                              (K_RETRY, 0, 0), (K_SETTLE, 0, 0), (K_KILL, 0, 0), (K_START, 0, 0), (K_REV, 2, 0), (K_SETTLE, 0, 0)]));
+    v.push(fam(14, 1, o, vec![(K_REG, 0, R_GOOD), (K_UP, 0, 0), (K_REV, 0, 0), (K_REV, 1, 0), (K_MODE, 0, A_WRONGKEY), (K_UP, 0, 1), (K_SETTLE, 0, 0), (K_MODE, 0, A_ACCEPT),
+                              (K_REV, 2, 0), (K_RETRY, 0, 0), (K_SETTLE, 0, 0)]));
+    v.push(fam(14, 1, o, vec![(K_REG, 0, R_GOOD), (K_MODE, 0, A_WRONGKEY), (K_REV, 0, 0), (K_SETTLE, 0, 0), (K_UP, 0, 0), (K_REG, 0, R_GOOD), (K_UP, 0, 1), (K_MODE, 0, A_ACCEPT),
+                              (K_REV, 1, 0), (K_SETTLE, 0, 0)]));
+    v.push(fam(14, 1, o, vec![(K_REG, 0, R_GOOD), (K_MODE, 0, A_WRONGKEY), (K_REV, 0, 0), (K_SETTLE, 0, 0), (K_UP, 0, 0), (K_REG, 0, R_GOOD), (K_UP, 0, 1), (K_MODE, 0, A_ACCEPT),
+                              (K_REV, 1, 0), (K_SETTLE, 0, 0), (K_MODE, 0, A_WRONGKEY), (K_REV, 2, 0), (K_SETTLE, 0, 0)]));
+    // 15: abandon while the retrier is alive, then register with the same tower again
+    v.push(fam(15, 1, (6, 30, 1), vec![(K_REG, 0, R_GOOD), (K_UP, 0, 0), (K_REV, 0, 0), (K_SLEEP, 1500, 0), (K_ABANDON, 0, 0), (K_UP, 0, 1), (K_REG, 0, R_GOOD), (K_SETTLE, 0, 0), (K_REV, 1, 0), (K_SETTLE, 0, 0)]));
+    v.push(fam(15, 2, (6, 30, 1), vec![(K_REG, 0, R_GOOD), (K_REG, 1, R_GOOD), (K_UP, 0, 0), (K_UP, 1, 0), (K_REV, 0, 0), (K_SLEEP, 1500, 0), (K_ABANDON, 0, 0), (K_UP, 0, 1), (K_REG, 0, R_GOOD),
+                                       (K_SETTLE, 0, 0), (K_REV, 1, 0), (K_SETTLE, 0, 0)]));
+    // 16: registering again with a known tower that does not answer
+    v.push(fam(16, 1, o, vec![(K_REG, 0, R_GOOD), (K_UP, 0, 0), (K_REG, 0, R_GOOD), (K_UP, 0, 1), (K_SETTLE, 0, 0), (K_RETRY, 0, 0), (K_REV, 0, 0), (K_SETTLE, 0, 0)]));
+    // 17: revocations in every retrier state: running, idle, failed (renewal refused), stopped again
+    v.push(fam(17, 1, o, vec![(K_REG, 0, R_GOOD), (K_MODE, 0, A_SUBERR), (K_MODE, 0, 100 + R_BADSIG), (K_REV, 0, 0), (K_SLEEP, 1200, 0), (K_REV, 1, 0), (K_SETTLE, 0, 0), (K_REV, 2, 0),
+                              (K_MODE, 0, A_ACCEPT), (K_MODE, 0, 100 + R_GOOD), (K_SETTLE, 0, 0), (K_RETRY, 0, 0), (K_SETTLE, 0, 0), (K_REV, 3, 0), (K_SETTLE, 0, 0)]));
+    v.push(fam(17, 1, (3, 30, 1), vec![(K_REG, 0, R_GOOD), (K_MODE, 0, A_GARBAGE), (K_REV, 0, 0), (K_SLEEP, 1300, 0), (K_REV, 1, 0), (K_REV, 0, 0), (K_SETTLE, 0, 0), (K_REV, 2, 0), (K_RETRY, 0, 0),
+                                       (K_SLEEP, 600, 0), (K_REV, 3, 0), (K_MODE, 0, A_ACCEPT), (K_SETTLE, 0, 0), (K_RETRY, 0, 0), (K_SETTLE, 0, 0)]));
+    // 18: a tower that answers every retry with garbage / resets / rejections while several appointments are pending: rate of requests
+    for cls in [A_GARBAGE, A_RESET, A_BADSIG, A_APIERR, A_SUBERR] {
+        v.push(fam(18, 1, (4, 30, 1), vec![(K_REG, 0, R_GOOD), (K_UP, 0, 0), (K_REV, 0, 0), (K_REV, 1, 0), (K_REV, 2, 0), (K_REV, 3, 0), (K_MODE, 0, cls), (K_UP, 0, 1), (K_SETTLE, 0, 0),
+                                           (K_MODE, 0, A_ACCEPT), (K_RETRY, 0, 0), (K_SETTLE, 0, 0)]));
+    }
+    // 19: kill while the retrier is delivering a batch
+    for ms in [700, 1100, 1500] {
+        v.push(fam(19, 2, o, vec![(K_REG, 0, R_GOOD), (K_REG, 1, R_GOOD), (K_UP, 0, 0), (K_REV, 0, 0), (K_REV, 1, 0), (K_REV, 2, 0), (K_REV, 3, 0), (K_SETTLE, 0, 0), (K_UP, 0, 1), (K_RETRY, 0, 0),
+                                  (K_SLEEP, ms, 0), (K_KILL, 0, 0), (K_START, 0, 0), (K_SETTLE, 0, 0)]));
+    }
+    // 20: automatic recovery after the auto-retry delay, with a revocation arriving while idle
+    v.push(fam(20, 1, (2, 3, 1), vec![(K_REG, 0, R_GOOD), (K_MODE, 0, A_RESET), (K_REV, 0, 0), (K_SETTLE, 0, 0), (K_REV, 1, 0), (K_MODE, 0, A_ACCEPT), (K_WAKE, 0, 0), (K_REV, 2, 0), (K_SETTLE, 0, 0)]));
+    // 21: abandon around the moment an idle retrier wakes up by itself (auto-retry 3 s; the manager starts it one polling period later)
+    for ms in [4300, 4700, 5000, 5300, 5700] {
+        v.push(fam(21, 1, (2, 3, 1), vec![(K_REG, 0, R_GOOD), (K_UP, 0, 0), (K_REV, 0, 0), (K_SETTLE, 0, 0), (K_SLEEP, ms, 0), (K_ABANDON, 0, 0), (K_SLEEP, 1500, 0), (K_SETTLE, 0, 0)]));
+    }
     v
 }
 
@@ -933,8 +987,12 @@ fn random_scenario(rng: &mut Rng) -> Scenario {
             57..=71 => steps.push((K_SETTLE, 0, 0)),
             72..=77 => steps.push((K_RETRY, t, 0)),
             78..=81 => steps.push((K_ABANDON, t, 0)),
-            82..=87 => steps.push((K_REG, t, *rng.pick(&[R_GOOD, R_GOOD, R_BADSIG, R_NOTEXT, R_GARBAGE]))),
+            82..=87 => steps.push((K_REG, t, *rng.pick(&[R_GOOD, R_GOOD, R_BADSIG, R_NOTEXT, R_NOTEXT_SLOTS, R_NOTEXT_EXPIRY, R_GARBAGE, R_APIERR]))),
             88..=92 => {
+                if rng.chance(1, 2) {
+                    // a notification whose handling races with the kill
+                    steps.push((K_REVNOWAIT, next_l, 20 * rng.below(12)));
+                }
                 steps.push((K_KILL, 0, 0));
                 dead = true;
             }
@@ -996,7 +1054,7 @@ fn main() {
                 scs.retain(|s| s.family == only);
             } else {
                 let mut rng = Rng::new(seed ^ 0xC05);
-                let nrand = env_u64("CP_NRAND", if thorough { 400 } else { 24 });
+                let nrand = env_u64("CP_NRAND", if thorough { 1200 } else { 40 });
                 for _ in 0..nrand {
                     scs.push(random_scenario(&mut rng));
                 }
